@@ -582,6 +582,10 @@ func (r *Router) waitForHandlers() bool {
 	go func() {
 		defer waitGroup.Done()
 
+		// the run loops have to end first: until then they can still dispatch a message that
+		// was already on its way from the subscriber, after runningHandlersWg was found empty
+		r.handlersWg.Wait()
+
 		r.runningHandlersWgLock.Lock()
 		defer r.runningHandlersWgLock.Unlock()
 
